@@ -423,6 +423,7 @@ func (d *rtDriver) Run(x *sched.Exec, raw json.RawMessage) json.RawMessage {
 	} else {
 		d.sc = genRoutine(x)
 	}
+	x.OptDouble = true // a grant and a cancellation in one controller step (sched.Exec.Double)
 	if x.LogSteps {
 		// X-level trace validation: Routine.tla models the scripted backoff and bounded 7 ms ticks only
 		d.sc.BoConf, d.sc.BigTick = "", false
